@@ -2297,6 +2297,56 @@ end Goml.Gen.Exports
 """)
 
 EXTRACTORS += [c14_exports_tables]
+# ---------------------------------------------------------------- C02: the back end's name tests
+C02_NAME_TEST_FILES = ["go/compile.rs", "go/dce.rs", "go/goast.rs", "go/goty.rs", "go/mangle.rs", "go/mod.rs", "lift.rs", "mono.rs",
+                       "anf.rs", "names.rs"]
+
+def c02_name_tests():
+    """every place where the middle / back end decides something by LOOKING AT A NAME: a comparison of a
+    string with a literal (`== "main"`, `.ends_with("::main")`, `.contains("TParam")`, a `"vec_new" =>` match
+    arm), the name constants of lift.rs, and the Go name of the renamed entry.  Returns
+    {"stems": [...], "sites": [...]}; the stems (the literal without its non-alphanumeric edges) drive the
+    name-test catalogue `gv c02names` — a new test on a name adds its stem to the catalogue by itself."""
+    sites, stems = [], []
+    def add(lit):
+        s = re.sub(r"^[^A-Za-z0-9]+|[^A-Za-z0-9]+$", "", lit)
+        if re.fullmatch(r"[A-Za-z][A-Za-z0-9_]*", s) and s not in stems:
+            stems.append(s)
+    for rel in C02_NAME_TEST_FILES:
+        path = os.path.join(REPO, "crates/compiler/src", rel)
+        if not os.path.exists(path):
+            continue
+        text = open(path, encoding="utf-8").read().split("#[cfg(test)]")[0]
+        text = re.sub(r"//[^\n]*", "", text)
+        for m in re.finditer(r'(?:(==|!=)\s*"([^"\n]+)"|"([^"\n]+)"\s*(==|!=)|\.(starts_with|ends_with|contains|strip_prefix|strip_suffix)\(\s*"([^"\n]+)"\s*\))', text):
+            lit = m.group(2) or m.group(3) or m.group(6)
+            op = m.group(1) or m.group(4) or m.group(5)
+            sites.append((rel, text.count("\n", 0, m.start()) + 1, op, lit))
+            add(lit)
+        for m in re.finditer(r'^\s*\|?\s*((?:"[^"\n]+"\s*\|\s*)*"[^"\n]+")\s*(?:if [^=\n]*)?=>', text, flags=re.M):   # `"lit" | "lit2" =>` match arms
+            for lit in re.findall(r'"([^"\n]+)"', m.group(1)):
+                sites.append((rel, text.count("\n", 0, m.start()) + 1, "match-arm", lit))
+                add(lit)
+        for m in re.finditer(r'const [A-Z][A-Z_0-9]*(?:PREFIX|SUFFIX|METHOD|NAME)[A-Z_0-9]*: &str = "([^"\n]+)";', text):
+            sites.append((rel, text.count("\n", 0, m.start()) + 1, "const", m.group(1)))
+            add(m.group(1))
+    comp = _norm(_src("crates/compiler/src/go/compile.rs"))
+    m = re.search(r'let patched_name = if is_entry \{ "(\w+)"\.to_string\(\) \}', comp)
+    if not m:
+        raise Exception("compile.rs::compile_fn: `let patched_name = if is_entry { \"…\".to_string() }` not found")
+    sites.append(("go/compile.rs", 0, "entry-go-name", m.group(1)))
+    add(m.group(1))
+    if not re.search(r"let is_entry = [^;]*\bmain\b", comp):
+        raise Exception("compile.rs::compile_fn: `let is_entry = … main …` not found")
+    for must in ("main", "TParam"):
+        if must not in stems:
+            raise Exception(f"name tests of the back end: the test on `{must}` was not found (scanner out of date?)")
+    return {"stems": stems, "sites": sites}
+
+def c02_check_name_tests():
+    c02_name_tests()
+
+EXTRACTORS += [c02_check_name_tests]
 
 if __name__ == "__main__":
     main()
